@@ -1,6 +1,6 @@
-(** * FeaturesProofs: the concrete area features satisfy the feature contracts. *)
+(** * FeaturesProofs: the concrete features satisfy the feature contracts. *)
 From Coq Require Import List Arith NArith Lia Bool.
-From WB Require Import Num Base Props World WorldProofs WorldProofs2 Kernels Features.
+From WB Require Import Num Base Props World WorldProofs WorldProofs2 Kernels Features Plume.
 Import ListNotations.
 
 Section FP.
@@ -9,57 +9,124 @@ Section FP.
   Lemma concat_repeat_length {A} (l : list A) k : length (concat (repeat l k)) = k * length l.
   Proof. induction k as [|k IH]; [reflexivity|]. cbn [repeat concat]. rewrite app_length, IH. lia. Qed.
 
-  Lemma grains_eval_length sph q m c k old :
-    length old = N.to_nat k * 10 -> length (grains_eval sph q m c k old) = N.to_nat k * 10.
+  Lemma random_rotations_spec tape k : forall t defl basis,
+    let r := random_rotations tape k t defl basis in
+    length (concat (fst r)) = k * 9 /\ snd r = t + 3 * k.
   Proof.
-    intros L. destruct m as [mn mx comps mats sizes]. cbn [grains_eval].
-    destruct (in_range _ _ _); [|exact L]. destruct (in_range _ _ _); [|exact L].
-    destruct (find_idx comps c 0); [|exact L].
-    rewrite app_length, repeat_length, concat_repeat_length.
-    rewrite firstn_length, app_length, repeat_length. lia.
+    induction k as [|k IH]; intros t defl basis; cbn [random_rotations]; [cbn; lia|].
+    specialize (IH (t + 3) defl basis). cbn zeta in IH.
+    destruct (random_rotations tape k (t + 3) defl basis) as [rest t']. cbn [fst snd] in *.
+    destruct IH as [L T]. cbn [concat]. rewrite app_length, L. split; [|lia].
+    destruct basis; cbn; lia.
   Qed.
 
-  Lemma area_paint_len g sph a : paint_len (area_to_feature g sph a).
+  Lemma random_sizes_spec tape k sz : forall t,
+    let r := random_sizes tape k t sz in
+    length (fst r) = k /\ t <= snd r <= t + k.
+  Proof.
+    induction k as [|k IH]; intros t; cbn [random_sizes]; [cbn; lia|].
+    destruct (flt sz f0).
+    - specialize (IH (S t)). cbn zeta in IH. destruct (random_sizes tape k (S t) sz) as [rest t']. cbn [fst snd length] in *. lia.
+    - specialize (IH t). cbn zeta in IH. destruct (random_sizes tape k t sz) as [rest t']. cbn [fst snd length] in *. lia.
+  Qed.
+
+  Lemma grains_eval_length tape sph q m c k st :
+    length (fst st) = N.to_nat k * 10 -> length (fst (grains_eval tape sph q m c k st)) = N.to_nat k * 10.
+  Proof.
+    destruct st as [old t]. cbn [fst]. intros L. destruct m as [mn mx comps mats sizes|mn mx comps sizes normalize defl]; cbn [grains_eval].
+    - destruct (in_range _ _ _); [|exact L]. destruct (in_range _ _ _); [|exact L].
+      destruct (find_idx comps c 0); [|exact L]. cbn [fst].
+      rewrite app_length, repeat_length, concat_repeat_length.
+      rewrite firstn_length, app_length, repeat_length. lia.
+    - destruct (in_range _ _ _); [|exact L]. destruct (in_range _ _ _); [|exact L].
+      destruct (find_idx comps c 0) as [i|]; [|exact L].
+      destruct (match defl with Some (ds, bs) => _ | None => _ end) as [dfl basis].
+      pose proof (random_rotations_spec tape (N.to_nat k) t dfl basis) as R. cbn zeta in R.
+      destruct (random_rotations tape (N.to_nat k) t dfl basis) as [mats t1]. cbn [fst snd] in R.
+      pose proof (random_sizes_spec tape (N.to_nat k) (nth i sizes f0) t1) as S. cbn zeta in S.
+      destruct (random_sizes tape (N.to_nat k) t1 (nth i sizes f0)) as [szs t2]. cbn [fst snd] in S.
+      cbn [fst]. rewrite app_length. destruct R as [R _]. destruct S as [S _]. rewrite R.
+      destruct (nth i normalize false); [rewrite map_length|]; lia.
+  Qed.
+
+  (** models that use no random draws *)
+  Definition comp_nonrandom (m : @comp_model F) : Prop := match m with CRandom _ _ _ _ _ _ => False | _ => True end.
+  Definition grains_nonrandom (m : @grains_model F) : Prop := match m with GRandom _ _ _ _ _ _ => False | _ => True end.
+
+  Lemma comp_fold_nonrandom tape sph q c ms : Forall comp_nonrandom ms -> forall v t,
+    fold_left (fun st m => comp_eval tape sph q m c st) ms (v, t) =
+    (fst (fold_left (fun st m => comp_eval tape sph q m c st) ms (v, 0)), t).
+  Proof.
+    intros H. induction H as [|m ms Hm Hms IH]; intros v t; [reflexivity|]. cbn [fold_left].
+    destruct m as [mn mx o comps fracs|]; [|destruct Hm]. cbn [comp_eval].
+    destruct (in_range _ _ _); [|apply IH]. destruct (in_range _ _ _); [|apply IH].
+    destruct (find_comp comps fracs c); apply IH.
+  Qed.
+
+  Lemma grains_fold_nonrandom tape sph q c k ms : Forall grains_nonrandom ms -> forall b t,
+    fold_left (fun st m => grains_eval tape sph q m c k st) ms (b, t) =
+    (fst (fold_left (fun st m => grains_eval tape sph q m c k st) ms (b, 0)), t).
+  Proof.
+    intros H. induction H as [|m ms Hm Hms IH]; intros b t; [reflexivity|]. cbn [fold_left].
+    destruct m as [mn mx comps mats sizes|]; [|destruct Hm]. cbn [grains_eval].
+    destruct (in_range _ _ _); [|apply IH]. destruct (in_range _ _ _); [|apply IH].
+    destruct (find_idx comps c 0); apply IH.
+  Qed.
+
+  Lemma grains_fold_length tape sph q c k ms : forall st,
+    length (fst st) = N.to_nat k * 10 ->
+    length (fst (fold_left (fun st m => grains_eval tape sph q m c k st) ms st)) = N.to_nat k * 10.
+  Proof.
+    induction ms as [|m ms IH]; intros st L; [exact L|]. cbn [fold_left]. apply IH, grains_eval_length, L.
+  Qed.
+
+  Lemma area_paint_len g tape sph a : paint_len (area_to_feature g tape sph a).
   Proof.
     intros q p t blk L. cbn [area_to_feature ft_paint]. unfold area_paint.
     destruct p; cbn [fst length width] in *; try reflexivity.
-    - (* grains *)
-      revert blk L. induction (af_grains a) as [|m ms IH]; intros blk L; [exact L|].
-      cbn [fold_left]. apply IH, grains_eval_length, L.
+    - destruct (fold_left _ (af_comp a) _) as [v t']. reflexivity.
+    - apply grains_fold_length. exact L.
     - destruct (fold_left _ (af_vel a) _) as [[vx vy] vz]. reflexivity.
   Qed.
 
-  Lemma area_no_random g sph a : no_random (area_to_feature g sph a).
+  Definition area_nonrandom (a : @area_feature F) : Prop :=
+    Forall comp_nonrandom (af_comp a) /\ Forall grains_nonrandom (af_grains a).
+
+  Lemma area_no_random g tape sph a : area_nonrandom a -> no_random (area_to_feature g tape sph a).
   Proof.
-    intros q p t blk. cbn [area_to_feature ft_paint]. unfold area_paint.
+    intros [HC HG] q p t blk. cbn [area_to_feature ft_paint]. unfold area_paint.
     destruct p; try reflexivity.
-    destruct (fold_left _ (af_vel a) _) as [[vx vy] vz]. reflexivity.
+    - rewrite (comp_fold_nonrandom tape sph q c (af_comp a) HC _ t).
+      destruct (fold_left _ (af_comp a) (nth 0 blk f0, 0)) as [v t']. reflexivity.
+    - rewrite (grains_fold_nonrandom tape sph q c k (af_grains a) HG blk t). reflexivity.
+    - destruct (fold_left _ (af_vel a) _) as [[vx vy] vz]. reflexivity.
   Qed.
 
-  Lemma area_paints_tag g sph a : paints_tag (area_to_feature g sph a).
+  Lemma area_paints_tag g tape sph a : paints_tag (area_to_feature g tape sph a).
   Proof. intros q t blk. reflexivity. Qed.
-End FP.
 
-From WB Require Import Plume.
-Section PlumeP.
-  Context {F : Type} {NF : Num F}.
-
-  Lemma plume_paint_len g sph pl : paint_len (plume_to_feature g sph pl).
+  Lemma plume_paint_len g tape sph pl : paint_len (plume_to_feature g tape sph pl).
   Proof.
     intros q p t blk L. cbn [plume_to_feature ft_paint]. unfold plume_paint.
     destruct p; cbn [fst length width] in *; try reflexivity.
-    - revert blk L. induction (pl_grains pl) as [|m ms IH]; intros blk L; [exact L|].
-      cbn [fold_left]. apply IH, grains_eval_length, L.
+    - destruct (fold_left _ (pl_comp pl) _) as [v t']. reflexivity.
+    - apply grains_fold_length. exact L.
     - destruct (fold_left _ (pl_vel pl) _) as [[vx vy] vz]. reflexivity.
   Qed.
 
-  Lemma plume_no_random g sph pl : no_random (plume_to_feature g sph pl).
+  Definition plume_nonrandom (pl : @plume_feature F) : Prop :=
+    Forall comp_nonrandom (pl_comp pl) /\ Forall grains_nonrandom (pl_grains pl).
+
+  Lemma plume_no_random g tape sph pl : plume_nonrandom pl -> no_random (plume_to_feature g tape sph pl).
   Proof.
-    intros q p t blk. cbn [plume_to_feature ft_paint]. unfold plume_paint.
+    intros [HC HG] q p t blk. cbn [plume_to_feature ft_paint]. unfold plume_paint.
     destruct p; try reflexivity.
-    destruct (fold_left _ (pl_vel pl) _) as [[vx vy] vz]. reflexivity.
+    - rewrite (comp_fold_nonrandom tape sph q c (pl_comp pl) HC _ t).
+      destruct (fold_left _ (pl_comp pl) (nth 0 blk f0, 0)) as [v t']. reflexivity.
+    - rewrite (grains_fold_nonrandom tape sph q c k (pl_grains pl) HG blk t). reflexivity.
+    - destruct (fold_left _ (pl_vel pl) _) as [[vx vy] vz]. reflexivity.
   Qed.
 
-  Lemma plume_paints_tag g sph pl : paints_tag (plume_to_feature g sph pl).
+  Lemma plume_paints_tag g tape sph pl : paints_tag (plume_to_feature g tape sph pl).
   Proof. intros q t blk. reflexivity. Qed.
-End PlumeP.
+End FP.
